@@ -129,7 +129,10 @@ def build(recipe):
             wdt = L.get("wdtype", "uint8" if x["dtype"] == "uint8" else "int8")
             if op == "CONV_2D":
                 oc = L["oc"]
-                wshape = [oc, kh, kw, C]
+                groups = L.get("groups", 1)
+                if C % groups or oc % groups:
+                    raise ValueError("convolution groups do not divide the channels")
+                wshape = [oc, kh, kw, C // groups]  # grouped convolution: the filter covers C / groups input channels
                 qdim = 0
             elif op == "DEPTHWISE_CONV_2D":
                 mult = L.get("mult", 1)
@@ -525,10 +528,34 @@ def gen_recipe(r, cfg=None, profile="mixed"):
             oc = r.choice([1, 2, 4, 8, 16, 16, 24, 32, 48, 64] + ([128, 160] if size == "deep" else []))
             if oc * kh * kw * C > 600000:
                 continue
+            extra = r.random()
+            groups = 1
+            if extra < 0.06:
+                # dilation above 2 (lowered by the compiler to several operations)
+                dh, dw = r.choice([(3, 3), (4, 4), (3, 1), (1, 4)])
+                if (kh - 1) * dh + 1 > 64 or ((kh - 1) * dh + 1) * ((kw - 1) * dw + 1) > 4096:
+                    dh, dw = 1, 1
+                if pad == "VALID" and ((kh - 1) * dh + 1 > H or (kw - 1) * dw + 1 > W):
+                    pad = "SAME"
+            elif extra < 0.12 and W >= 4:
+                # stride in width above 3: folded into the depth by the compiler (VALID padding, width divisible)
+                sw = r.choice([4, 6, 8])
+                sh = r.choice([1, 2, 3])
+                pad = "VALID"
+                if (kw - 1) * dw + 1 > W or (kh - 1) * dh + 1 > H:
+                    kh, kw, dh, dw = 1, 1, 1, 1
+            elif extra < 0.18:
+                gs = [g for g in (2, 4, 8) if C % g == 0 and oc % g == 0]
+                if gs:
+                    groups = r.choice(gs)
             OH, OW = conv_out(H, kh, sh, dh, pad), conv_out(W, kw, sw, dw, pad)
+            if OH < 1 or OW < 1:
+                continue
             L = dict(op="CONV_2D", k=[kh, kw], oc=oc, stride=[sh, sw], dil=[dh, dw], pad=pad, act=act, q=list(oq),
                      per_axis=r.random() < cfg["per_axis_p"], wstyle=r.choice(["uniform", "uniform", "small", "sparse", "extreme"]),
                      wscale=f32(r.choice([0.002, 0.01, 0.03])), bias=r.random() < 0.9)
+            if groups > 1:
+                L["groups"] = groups
             L["in"] = [xi]
             emit(L, [1, OH, OW, oc], oq)
             twin(L, [1, OH, OW, oc])
@@ -543,9 +570,13 @@ def gen_recipe(r, cfg=None, profile="mixed"):
             L = dict(op="DEPTHWISE_CONV_2D", k=[kh, kw], stride=[sh, sw], dil=[dh, dw], pad=pad, act=act, q=list(oq),
                      per_axis=r.random() < cfg["per_axis_p"], wstyle=r.choice(["uniform", "small", "sparse"]),
                      wscale=f32(r.choice([0.002, 0.01, 0.03])), bias=r.random() < 0.9)
+            mult = 1
+            if C == 1 and r.random() < 0.5:
+                mult = r.choice([2, 4, 8, 16])  # depth multiplier: one input channel fanned out
+                L["mult"] = mult
             L["in"] = [xi]
-            emit(L, [1, OH, OW, C], oq)
-            twin(L, [1, OH, OW, C])
+            emit(L, [1, OH, OW, C * mult], oq)
+            twin(L, [1, OH, OW, C * mult])
         elif fam == "pool":
             op = r.choice(["MAX_POOL_2D", "AVERAGE_POOL_2D"])
             kh, kw = r.choice([(2, 2), (3, 3), (2, 2), (1, 1), (3, 2), (4, 4), (8, 8)])
